@@ -287,7 +287,7 @@ class _:
 class _:
     shapes = dict(s='mpf', t='mpf', prec='int')
     result = 'mpf'
-    props = dict(wf=['C01'], bits=['C10'], value=['C02'])
+    props = dict(wf=['C01'], bits=['C10'], value=['C02'], exact=['C02', 'C04'])
     all_props = ['C01', 'C02', 'C10']
 
     def requires(s, t, prec, rnd):
@@ -301,6 +301,10 @@ class _:
 
     def ensures_value(s, t, prec, rnd, result):
         return ProdSpec(result, s, t, prec, rnd)
+
+    def ensures_exact(s, t, prec, rnd, result):
+        # with prec == 0 the product of finite values is returned exactly, as this very tuple
+        return prec != 0 or is_nonfinite(s) or is_nonfinite(t) or result == exact_prod(s, t)
 
     ghost = {
         ('man = sman * tman', 0, 'after'): [
